@@ -539,7 +539,7 @@ func aggregate(spec Spec, children []childOut, logDir string) aggT {
 				Witness: map[string]any{"log_tail": lastLines(logTxt, 60)},
 			}})
 		}
-		if len(order) == 0 && len(c.lines) == 0 {
+		if len(order) == 0 && len(c.lines) == 0 && c.exitErr != nil {
 			a.notes = append(a.notes, fmt.Sprintf("child %d produced no lines (exit %v); log %s: %s", c.idx, c.exitErr, c.log, lastLines(tailFile(c.log, 4000), 10)))
 			a.inconclusive++
 			a.inconcWhy["child produced nothing"]++
